@@ -77,7 +77,8 @@ def progress_points(facts, body, loop):
             if st["k"] == "assign" and st["dst"]["proj"]:
                 root = st["dst"]["local"]
                 # P3/P1': write into a field reached through `&mut self` (thread-private iterator state)
-                if 1 <= root <= body.nargs and body.ty(root)["s"].startswith("&mut "):
+                if body.ty(root)["s"].startswith("&mut ") and any(
+                        body.ty(k)["s"].startswith("&mut ") and (root == k or fl.derives_from_arg(root, k)) for k in range(1, body.nargs + 1)):
                     pts[Point(b, si)] = "P3 private state %s updated" % ".".join(n for _, n in place_fields(st["dst"]))
         c = body.call_at(b)
         if c is None:
